@@ -472,7 +472,13 @@ void c13_check_basis (mpq_QSprob p, const RefLP * L, const char *ctx);
 void c12_check_current_basis (mpq_QSprob p, const RefLP * L, const char *ctx);
 static Trans *alpha; static int nalpha;
 static int idx_write_basis = -1;
-static int step_radix (int i) { if (o_sandwich == 2 && i == o_depth - 1) return 1; return (o_sandwich && (i == 0 || i == o_depth - 1)) ? 4 : nalpha; }   /* sandwich 1: first and last step are one of the 4 solves; 2: first a solve, last write_basis */
+static const char *o_pat = "";      /* --opt pat=SAA : per step S = one of the 4 solves, A = any operation of the alphabet, W = write_basis; overrides depth */
+static int step_radix (int i)
+{
+	if (o_pat[0]) return o_pat[i] == 'S' ? 4 : o_pat[i] == 'W' ? 1 : nalpha;
+	if (o_sandwich == 2 && i == o_depth - 1) return 1;
+	return (o_sandwich && (i == 0 || i == o_depth - 1)) ? 4 : nalpha;
+}   /* sandwich 1: first and last step are one of the 4 solves; 2: first a solve, last write_basis */
 static void hist_init (void)
 {
 	build_alphabets ();
@@ -480,8 +486,10 @@ static void hist_init (void)
 	o_reduced = (int) opt_int ("reduced", 0);
 	alpha = o_reduced ? alpha_red : alpha_full; nalpha = o_reduced ? n_red : n_full;
 	o_sandwich = (int) opt_int ("sandwich", 0);
+	o_pat = opt_str ("pat", "");
+	if (o_pat[0]) { o_depth = (int) strlen (o_pat); if (o_depth > 8) { fprintf (stderr, "hist: pat too long\n"); exit (2); } for (const char *c = o_pat; *c; c++) if (!strchr ("SAW", *c)) { fprintf (stderr, "hist: pat uses S, A, W\n"); exit (2); } }
 	for (int i = 0; i < nalpha; i++) if (alpha[i].op == OP_WRITE_BASIS) idx_write_basis = i;
-	if (o_sandwich == 2 && idx_write_basis < 0) { fprintf (stderr, "hist: sandwich=2 needs write_basis in the alphabet\n"); exit (2); }
+	if ((o_sandwich == 2 || strchr (o_pat, 'W')) && idx_write_basis < 0) { fprintf (stderr, "hist: sandwich=2 needs write_basis in the alphabet\n"); exit (2); }
 	o_binv = (int) opt_int ("binv", 0);      /* after every OPTIMAL solve: B^-1 and tableau rows must multiply back (C13) */
 	o_verd = (int) opt_int ("verd", 0);      /* after every step: the verdict functions on the problem's own basis (C12) */
 	if (opt_int ("printalpha", 0)) { for (int i = 0; i < nalpha; i++) fprintf (stderr, "%d %s#%d\n", i, opdefs[alpha[i].op].name, alpha[i].var); }
@@ -540,7 +548,8 @@ static void hist_run (long item)
 	int start = (int) (r % NSTART); r /= NSTART;
 	Trans seq[8];
 	for (int i = 0; i < o_depth; i++) { seq[i] = alpha[r % step_radix (i)]; r /= step_radix (i); }
-	if (o_sandwich == 2) seq[o_depth - 1] = alpha[idx_write_basis];
+	if (o_sandwich == 2 && !o_pat[0]) seq[o_depth - 1] = alpha[idx_write_basis];
+	if (o_pat[0]) for (int i = 0; i < o_depth; i++) if (o_pat[i] == 'W') seq[i] = alpha[idx_write_basis];
 	/* prune: histories that can show nothing new */
 	size_t mem0 = 0;
 	char capbuf[400]; capbuf[0] = 0;
